@@ -9,10 +9,14 @@
 package main
 
 import (
+	"bufio"
 	"bytes"
 	"encoding/json"
 	"flag"
 	"fmt"
+	"go/ast"
+	"go/parser"
+	"go/token"
 	"os"
 	"os/exec"
 	"path/filepath"
@@ -20,6 +24,7 @@ import (
 	"sort"
 	"strconv"
 	"strings"
+	"sync"
 	"time"
 
 	"verif/ev"
@@ -451,11 +456,226 @@ func main() {
 	}
 	part1(*tier, *bridge, work, "", acc)
 	part2(*tier, *goose, work, acc, "")
+	part3(*tier, *bridge, acc, start)
 	os.RemoveAll(work)
 	os.Exit(acc.Done(ev.Finish{
 		Prop: "C07", Tier: *tier, Level: "exploration", Start: start,
-		Rule: "(1) every construct of the out-of-subset catalogue (C02) plus a family of crash-prone type shapes (named slice / map / pointer types, 5-value destructuring, generics, methods on named integers, interface shapes, arrays, nested containers, defer/select/labels ...) and 12 supported controls at every statement position (quick: 4 positions), each declaration translated and printed separately by the real translator code through the overlay bridge under recover: a foreign panic, an undocumented error category, an error position outside the offending declaration or a declaration with neither error nor output is a violation. (2) packages of good (G) and bad (B) declarations in every pattern of a fixed list (B, GB, BG, GBG, BB, GBBG, BGB, BBB, ...) over 4 file layouts through the real binary with and without -ignore-errors: exit 1, exactly one located error per bad declaration, correct summary, nothing written without -ignore-errors, exactly the good declarations with it; plus two bad packages in one invocation",
+		Rule:        "(1) every construct of the out-of-subset catalogue (C02) plus a family of crash-prone type shapes (named slice / map / pointer types, 5-value destructuring, generics, methods on named integers, interface shapes, arrays, nested containers, defer/select/labels ...) and 12 supported controls at every statement position (quick: 4 positions), each declaration translated and printed separately by the real translator code through the overlay bridge under recover: a foreign panic, an undocumented error category, an error position outside the offending declaration or a declaration with neither error nor output is a violation. (2) packages of good (G) and bad (B) declarations in every pattern of a fixed list (B, GB, BG, GBG, BB, GBBG, BGB, BBB, ...) over 4 file layouts through the real binary with and without -ignore-errors: exit 1, exactly one located error per bad declaration, correct summary, nothing written without -ignore-errors, exactly the good declarations with it; plus two bad packages in one invocation. (3) every single mutation (node x operator: parenthesise, &/* on selector bases and call arguments, literal conversions, := to var, op-assign expansion, ++ to +=, block / if-true / function-literal wrapping of statements) of the shipped example packages (quick: append_log, async; thorough: all of internal/examples), type-checked and translated declaration by declaration in memory; ill-typed mutants are discarded and counted",
 		Assumptions: []string{"per-declaration translation goes through an overlay-added file in package goose that calls declsOrError and CoqDecl exactly as Decls / File.Write do", "crashes outside declaration translation (package loading, FFI detection) are covered by C08's two-FFI configurations"},
 		Extra:       map[string]any{"distinct_nontrivial": len(acc.Sets["nontrivial"])},
 	}))
+}
+
+// ---------------------------------------------------------------- part 3: single mutations of the shipped examples
+
+type mutant struct {
+	File, Op, Text string
+	Off            int
+	Content        string
+}
+
+// mutantsOf enumerates every single textual mutation (node x operator) of one Go file.
+func mutantsOf(path string, src []byte) []mutant {
+	fset := token.NewFileSet()
+	f, err := parser.ParseFile(fset, path, src, 0)
+	if err != nil {
+		return nil
+	}
+	var out []mutant
+	add := func(op string, n ast.Node, repl func(old string) string) {
+		s, e := fset.Position(n.Pos()).Offset, fset.Position(n.End()).Offset
+		if s < 0 || e > len(src) || s >= e {
+			return
+		}
+		old := string(src[s:e])
+		nw := repl(old)
+		if nw == old {
+			return
+		}
+		out = append(out, mutant{File: path, Op: op, Text: old, Off: s, Content: string(src[:s]) + nw + string(src[e:])})
+	}
+	inFunc := false
+	ast.Inspect(f, func(n ast.Node) bool {
+		switch n := n.(type) {
+		case *ast.FuncDecl:
+			inFunc = n.Body != nil
+		case *ast.BinaryExpr, *ast.CallExpr, *ast.IndexExpr, *ast.SelectorExpr, *ast.StarExpr, *ast.UnaryExpr, *ast.SliceExpr, *ast.CompositeLit:
+			if inFunc {
+				add("paren", n, func(o string) string { return "(" + o + ")" })
+			}
+			if se, ok := n.(*ast.SelectorExpr); ok && inFunc {
+				add("addr-sel", se.X, func(o string) string { return "(&" + o + ")" })
+				add("deref-sel", se.X, func(o string) string { return "(*" + o + ")" })
+			}
+			if ce, ok := n.(*ast.CallExpr); ok && inFunc {
+				for _, a := range ce.Args {
+					add("addr-deref-arg", a, func(o string) string { return "*&" + o })
+				}
+			}
+		case *ast.BasicLit:
+			if inFunc && n.Kind == token.INT {
+				add("conv-lit", n, func(o string) string { return "uint64(" + o + ")" })
+				add("lit-plus-zero", n, func(o string) string { return "(" + o + " + 0)" })
+			}
+			if inFunc && n.Kind == token.STRING {
+				add("str-concat-empty", n, func(o string) string { return "(" + o + " + \"\")" })
+			}
+		case *ast.AssignStmt:
+			if inFunc && n.Tok == token.DEFINE && len(n.Lhs) == 1 && len(n.Rhs) == 1 {
+				add("define-to-var", n, func(o string) string { return "var " + strings.Replace(o, ":=", "=", 1) })
+			}
+			if inFunc && n.Tok == token.ADD_ASSIGN && len(n.Lhs) == 1 {
+				l, r := string(src[fset.Position(n.Lhs[0].Pos()).Offset:fset.Position(n.Lhs[0].End()).Offset]), string(src[fset.Position(n.Rhs[0].Pos()).Offset:fset.Position(n.Rhs[0].End()).Offset])
+				add("expand-opassign", n, func(o string) string { return l + " = " + l + " + " + r })
+				add("mul-assign", n, func(o string) string { return l + " *= " + r })
+			}
+		case *ast.IncDecStmt:
+			if inFunc {
+				x := string(src[fset.Position(n.X.Pos()).Offset:fset.Position(n.X.End()).Offset])
+				add("incdec-to-opassign", n, func(o string) string {
+					if n.Tok == token.INC {
+						return x + " += 1"
+					}
+					return x + " -= 1"
+				})
+			}
+		case *ast.ExprStmt, *ast.ReturnStmt, *ast.IfStmt, *ast.ForStmt, *ast.RangeStmt, *ast.BranchStmt, *ast.GoStmt:
+			if inFunc {
+				add("block-wrap", n, func(o string) string { return "{\n" + o + "\n}" })
+				add("if-true-wrap", n, func(o string) string { return "if true {\n" + o + "\n}" })
+				if _, isRet := n.(*ast.ReturnStmt); !isRet {
+					add("defer-wrap", n, func(o string) string { return "func() {\n" + o + "\n}()" })
+				}
+			}
+		case *ast.Ident:
+			// handled through the parents above
+		}
+		return true
+	})
+	return out
+}
+
+func part3(tier, bridge string, acc *ev.Acc, start time.Time) {
+	var files []string
+	pkgs := []string{"internal/examples/unittest", "internal/examples/semantics", "internal/examples/append_log", "internal/examples/wal", "internal/examples/simpledb", "internal/examples/logging2", "internal/examples/async", "internal/examples/comments"}
+	if tier == "quick" {
+		pkgs = []string{"internal/examples/append_log", "internal/examples/async"}
+	}
+	for _, p := range pkgs {
+		m, _ := filepath.Glob(filepath.Join("/repo", p, "*.go"))
+		for _, f := range m {
+			if !strings.HasSuffix(f, "_test.go") {
+				files = append(files, f)
+			}
+		}
+	}
+	sort.Strings(files)
+	type job struct {
+		m   mutant
+		pkg string
+	}
+	var jobs []job
+	for _, f := range files {
+		src, err := os.ReadFile(f)
+		if err != nil {
+			continue
+		}
+		rel, _ := filepath.Rel("/repo", filepath.Dir(f))
+		for _, m := range mutantsOf(f, src) {
+			jobs = append(jobs, job{m, "./" + rel})
+		}
+	}
+	nw := 16
+	ch := make(chan job)
+	type res struct {
+		j     job
+		kind  string
+		msg   string
+		state string // discarded | rejected | accepted | panic
+	}
+	results := make(chan res, 64)
+	var wg sync.WaitGroup
+	for w := 0; w < nw; w++ {
+		wg.Add(1)
+		go func() {
+			defer wg.Done()
+			c := exec.Command(bridge, "-dir", "/repo", "-serve")
+			stdin, _ := c.StdinPipe()
+			stdout, _ := c.StdoutPipe()
+			c.Stderr = os.Stderr
+			if err := c.Start(); err != nil {
+				return
+			}
+			rd := bufio.NewReaderSize(stdout, 1<<24)
+			enc := json.NewEncoder(stdin)
+			for j := range ch {
+				enc.Encode(map[string]string{"file": j.m.File, "content": j.m.Content, "only": filepath.Base(j.m.File), "pattern": j.pkg})
+				line, err := rd.ReadBytes('\n')
+				if err != nil {
+					results <- res{j: j, state: "panic", kind: "bridge-died", msg: "the translator process died on this input"}
+					return
+				}
+				var pk []bpkg
+				if json.Unmarshal(line, &pk) != nil || len(pk) == 0 || pk[0].LoadError != "" {
+					results <- res{j: j, state: "discarded"}
+					continue
+				}
+				r := res{j: j, state: "accepted"}
+				for _, d := range pk[0].Decls {
+					if d.Panic != "" {
+						r.state, r.kind, r.msg = "panic", "crash:"+norm(d.Panic), fmt.Sprintf("the translator panics: %s @ %s (declaration %s)", d.Panic, d.PanicTop, d.GoName)
+						break
+					}
+					if d.ErrCat != "" {
+						r.state = "rejected"
+						if !documented[d.ErrCat] {
+							r.kind, r.msg = "undocumented-category", d.ErrCat
+						} else if filepath.Base(d.ErrFile) != d.File || d.ErrLine < d.Line || d.ErrLine > d.EndLine {
+							r.kind, r.msg = "position-outside-declaration", fmt.Sprintf("error (%s: %s) at %s:%d, declaration %s spans %d-%d", d.ErrCat, d.ErrMsg, d.ErrFile, d.ErrLine, d.GoName, d.Line, d.EndLine)
+						}
+					}
+				}
+				results <- r
+			}
+			stdin.Close()
+			c.Wait()
+		}()
+	}
+	go func() {
+		for _, j := range jobs {
+			if time.Since(start) > 25*time.Minute {
+				acc.NotExhaustive("internal deadline (example mutations)")
+				break
+			}
+			ch <- j
+		}
+		close(ch)
+		wg.Wait()
+		close(results)
+	}()
+	for r := range results {
+		acc.Add("evaluations", 1)
+		acc.Add("example_mutants", 1)
+		acc.Add("example_mutants_"+r.state, 1)
+		acc.Set("mutation_operators", r.j.m.Op)
+		if r.state != "discarded" {
+			acc.Set("nontrivial", fmt.Sprintf("%s@%d/%s", filepath.Base(r.j.m.File), r.j.m.Off, r.j.m.Op))
+		}
+		if r.kind != "" {
+			rel, _ := filepath.Rel("/repo", r.j.m.File)
+			acc.Violate(ev.Violation{Key: fmt.Sprintf("C07/example-mutation/%s/%s/%s", r.kind, r.j.m.Op, rel), Msg: fmt.Sprintf("%s: operator %s applied to `%s` (offset %d): %s", rel, r.j.m.Op, oneLine(r.j.m.Text), r.j.m.Off, r.msg), Replay: map[string]any{"part": 3, "file": r.j.m.File, "op": r.j.m.Op, "offset": r.j.m.Off}})
+		}
+	}
+	if len(jobs) > 0 {
+		m := jobs[len(jobs)/2].m
+		acc.Sample(map[string]any{"part": "example mutation", "file": m.File, "operator": m.Op, "node": oneLine(m.Text)}, 4)
+	}
+}
+
+func oneLine(s string) string {
+	s = strings.Join(strings.Fields(s), " ")
+	if len(s) > 80 {
+		s = s[:80] + "…"
+	}
+	return s
 }
